@@ -69,6 +69,30 @@
     value yet, or with a lexer that is not recovering, the `debug_assert` of `finish`
     (`vals.is_empty() || lexer.recover_state().is_none()`) cannot fire.
   * kept from the interim file: `C11_split_count`, `C11_model_hi_zero`.
+  * THE LOCATION CLAUSE ("… exactly one reported error whose span lies between the separators (or
+    list boundaries) delimiting that segment, inclusive"; `TephraProofs/ListErrLoc.lean`).
+    `ErrWithin lo hi e`: every byte offset mentioned by the error — both ends of every span field
+    (`es`, `ts`, …), every position field (`end`) — lies in `[lo, hi]`; this is what the driver's
+    oracle checks with `errByteRange`.  `PosB lb len lx`: every position stored in the lexer lies in
+    `[lb, len]` (a fresh lexer: `lb = 0`).
+    - `C11_error_located` — one round: the error logged for a bad segment lies in
+      `[lb, b.stop.byte]`, `b` the separator / abort token ending the segment (`[lb, len]` when the
+      segment runs to the end of the text, the F21 case).
+    - `C11_errors_located` — the combinator: the `k`-th logged error lies within the `k`-th entry of
+      `badBounds` = the bounds of the bad segments exactly as `listOracleCore` computes them from
+      `Fam.Oracles.segmentBounds` (lower bound: the START of the separator before the segment, or
+      `lb` for the first; the proof gives the end of that separator).  `C11_errors_located_any`:
+      the same without excluding F21 and without reference to the result.
+    - ADDED HYPOTHESIS: `locG (sep :: abort) a` — the item is in the SYNTACTIC local fragment.  The
+      semantic hypothesis `ItemHyp` is not enough: `C11_located_needs_syntactic` refutes the clause
+      under `ItemHyp` alone (`C11_located_semantic_statement`) with the item
+      `both(one(','), F)`, `F` an always-failing `pred`, on the text `,b;`: the item never succeeds
+      (so it is semantically local), but it consumes the separator before failing, and the error
+      reported for the first (empty) segment, bounded by bytes `0..1`, is `F`'s error on `b`
+      (bytes `1..2`).  How it is proved for `locG`: an item none of whose primitives accepts a
+      boundary kind never gets past the first boundary token `b` (`win_run`), so every span it
+      reads off the lexer ends at or before `b.stop`; the `boundary` error of `up_to` carries the
+      parse span (ending before `b`) and the cursor after `advance_to(b)` (= `b.stop`).
 
   Unbounded: any scanner satisfying the contract, text, metrics, filter, bounds, variant,
   separator, abort kinds, item of the stated classes, fuel, context chain, world.
@@ -78,6 +102,7 @@ import TephraModel.Spec.ListSpec
 import TephraProofs.ListRefine
 import TephraProofs.ListLocal
 import TephraProofs.ListWitness
+import TephraProofs.ListErrLoc
 
 namespace Tephra.Props
 open Tephra Tephra.Fam.Oracles Tephra.Spec Tephra.ListRefine Tephra.ListLocal Tephra.ListWitness
@@ -85,6 +110,7 @@ open Tephra.BracketRefine Tephra.PegRefine Tephra.LexIter
 open Tephra.RecoverFrame (specOf)
 open Tephra.RecoverProof (logged)
 open Tephra.Term (listItem listDv)
+open Tephra.ListErrLoc
 
 theorem C11_split_count (sep : Nat) (l : List (Spec.RawTok Tok)) :
     (splitAtSep sep l).length = (l.filter (·.tok.kind == sep)).length + 1 := by
@@ -397,6 +423,164 @@ theorem C11_finish_assert (ctx : Ctx) (lo : Nat) (hi : Option Nat) (lx : Lx) (x 
     Term.listFinish ctx lo hi lx (x :: vals) W = (.panic, W) := by
   simp [Term.listFinish, h]
 
+/-! ### 5. the location of the reported errors -/
+
+/-- what `ErrWithin` says, constructor by constructor of the error -/
+theorem C11_errWithin_def (lo hi : Nat) (e : PErr) :
+    ErrWithin lo hi e ↔
+      ErrQ (fun x => (lo ≤ x.s.byte ∧ x.s.byte ≤ hi) ∧ (lo ≤ x.e.byte ∧ x.e.byte ≤ hi))
+        (fun p => lo ≤ p.byte ∧ p.byte ≤ hi) e.body := Iff.rfl
+
+/-- a fresh lexer stores only the position zero -/
+theorem C11_posB_new (s0 : Nat) (m : Metrics) (len : Nat) : PosB 0 len (Lexer.new s0 m len) :=
+  ⟨⟨Nat.zero_le _, Nat.zero_le _⟩, ⟨Nat.zero_le _, Nat.zero_le _⟩, ⟨Nat.zero_le _, Nat.zero_le _⟩, fun _ h => nomatch h⟩
+
+/-- **C11, the location clause, one round.**  Hypotheses of `C11_value_step` with a sink, and: the
+item is in the syntactic fragment `locG (sep :: abort)`; every position stored in the entry lexer
+lies in `[lb, len]` (bytes).  Then, as in `C11_value_step`, and IN ADDITION: the single error `e`
+appended to the log for a bad segment satisfies `ErrWithin lb b.stop.byte e`, where `b` is the
+separator / abort token that ends the segment (the head of `tailOf … (K.drop j)`, i.e.
+`K[j + seg.length]`); when the bad segment runs to the end of the stream (F21) it satisfies
+`ErrWithin lb len e`. -/
+theorem C11_error_located {R : RunEnv} {m : Metrics} {len : Nat} (ok : ScanOK R.E m len) (hp : PassOK R.E)
+    {f : Option Nat} {a : G} {sep : Nat} {abort : List Nat} (H : ItemHyp R.text f a sep abort)
+    (hloc : locG (sep :: abort) a = true)
+    {K : List (RawTok Tok)} (hF : SpecFuelOK R.text f a K) {j : Nat} {lx : Lx}
+    (hat : AtIdx R.E m len f K j lx) (hrec : lx.recover = none) {lb : Nat} (hpos : PosB lb len lx)
+    (v n id : Nat) (ctx : Ctx) (W : World)
+    (hW : specOf W id = none ∨ specOf W id = some (patOf sep abort)) (hsink : ctx.sink = true) :
+    (∃ x lx', valueRound R n v id a sep abort lx ctx W = (.ok (wrapV v x) lx', W.register id (patOf sep abort)) ∧
+        evalSegment R.text f a (segOf sep abort (K.drop j)) = some x ∧
+        AtIdx R.E m len f K (j + (segOf sep abort (K.drop j)).length) lx' ∧ lx'.recover = none) ∨
+    (evalSegment R.text f a (segOf sep abort (K.drop j)) = none ∧
+      ∃ b rest e lx', tailOf sep abort (K.drop j) = b :: rest ∧ valueRound R n v id a sep abort lx ctx W =
+          (.ok (listDv v) lx', logged (W.register id (patOf sep abort)) ctx e) ∧ ErrWithin lb b.stop.byte e ∧
+        AtIdx R.E m len f K (j + (segOf sep abort (K.drop j)).length) lx' ∧ lx'.recover = none) ∨
+    (evalSegment R.text f a (segOf sep abort (K.drop j)) = none ∧ tailOf sep abort (K.drop j) = [] ∧
+      ∃ e, valueRound R n v id a sep abort lx ctx W =
+          (.err ⟨[], .recover⟩, logged (W.register id (patOf sep abort)) ctx e) ∧ ErrWithin lb len e) ∨
+    (valueRound R n v id a sep abort lx ctx W).1 = .fuel :=
+  round_located ok hp H hloc hF hat hrec hpos v n id ctx W hW hsink
+
+/-- the boundary token of the round is the token at index `j + seg.length` of `K` -/
+theorem C11_boundary_index (sep : Nat) (abort : List Nat) (K : List (RawTok Tok)) (j : Nat) {b : RawTok Tok}
+    {rest : List (RawTok Tok)} (h : tailOf sep abort (K.drop j) = b :: rest) :
+    K[j + (segOf sep abort (K.drop j)).length]? = some b ∧ bnd sep abort b.tok.kind = true := by
+  have := ListRefine.drop_seg sep abort K j
+  rw [h] at this
+  exact ⟨(drop_cons_inv this).2.1, tail_head h⟩
+
+/-- the error of the item itself (`up_to(item, sep_or_abort)` run on the round's lexer), without
+the list around it -/
+theorem C11_item_error_located {R : RunEnv} {m : Metrics} {len : Nat} (ok : ScanOK R.E m len) (hp : PassOK R.E)
+    {f : Option Nat} {a : G} {sep : Nat} {abort : List Nat} (hloc : locG (sep :: abort) a = true)
+    {K : List (RawTok Tok)} {j : Nat} {lx : Lx} (hat : AtIdx R.E m len f K j lx) {lb : Nat} (hpos : PosB lb len lx)
+    (v n : Nat) (ctx : Ctx) (W : World) (e : PErr)
+    (he : (run R n (listItem v a sep abort) lx ctx W).1 = .err e) :
+    (∀ b rest, tailOf sep abort (K.drop j) = b :: rest → ErrWithin lb b.stop.byte e) ∧
+    (tailOf sep abort (K.drop j) = [] → ErrWithin lb len e) :=
+  item_err_located ok hp hloc hat hpos v n ctx W e he
+
+/-- `badBounds` is the oracle's computation (`listOracleCore`: `bounds`, `badBounds`) -/
+theorem C11_badBounds_def (entries : List (Option Val)) (sep : Nat) (abort : List Nat) (startByte len : Nat)
+    (view : List (RawTok Tok)) :
+    badBounds entries sep abort startByte len view =
+      ((entries.zip (segmentBounds sep abort startByte len view)).filter (·.1.isNone)).map (·.2) := rfl
+
+/-- **C11, the location clause, the combinator — any outcome** (F21 included).  Top-level `list*`,
+sink installed, entry lexer at index `j` of `K`, not recovering, stored positions in `[lb, len]`,
+item in `locG (sep :: abort)`, model not out of fuel: the sink log has grown by `errs`, then at most
+one more error (the count error); `errs` has one error per bad entry of `listSpec`, and the `k`-th
+lies within the `k`-th of the oracle's bounds of the bad segments. -/
+theorem C11_errors_located_any {R : RunEnv} {m : Metrics} {len : Nat} (ok : ScanOK R.E m len) (hp : PassOK R.E)
+    {f : Option Nat} {a : G} {sep : Nat} {abort : List Nat} (H : ItemHyp R.text f a sep abort)
+    (hloc : locG (sep :: abort) a = true)
+    {K : List (RawTok Tok)} (hF : SpecFuelOK R.text f a K)
+    (n v id lo : Nat) (hi : Option Nat) {j : Nat} {lx : Lx} (ctx : Ctx) (W : World)
+    (hhi : effHi v hi ≠ some 0) (hlo : hiBelow (effHi v hi) (effLo v lo) = false)
+    (hat : AtIdx R.E m len f K j lx) (hrec : lx.recover = none) {lb : Nat} (hpos : PosB lb len lx)
+    (hW : specOf W id = none ∨ specOf W id = some (patOf sep abort)) (hsink : ctx.sink = true)
+    (hne : (run R (n + 1) (.list v id lo hi a sep abort) lx ctx W).1 ≠ .fuel) :
+    ∃ errs tl, (run R (n + 1) (.list v id lo hi a sep abort) lx ctx W).2.log = W.log ++ errs ++ tl ∧
+      tl.length ≤ 1 ∧ errs.length = (listSpec R.text f (effHi v hi) a sep abort (K.drop j)).nbad ∧
+      ∀ (k : Nat) (b : Nat × Nat),
+        (badBounds (listSpec R.text f (effHi v hi) a sep abort (K.drop j)).entries sep abort lb len (K.drop j))[k]? =
+          some b → ∃ e, errs[k]? = some e ∧ ErrWithin b.1 b.2 e :=
+  list_located ok hp H hloc hF n v id lo hi ctx W hhi hlo hat hrec hpos hW hsink hne
+
+/-- **C11, the location clause, the combinator.**  Hypotheses of `C11_list_partial` (sink, F21
+excluded), item in `locG (sep :: abort)`, stored positions of the entry lexer in `[lb, len]`: the
+conclusion of `C11_list_partial` (`SinkConcl`, spelled out), and the `k`-th of the `nbad` logged
+errors lies within the `k`-th of the oracle's bounds of the bad segments — from the start of the
+separator before the segment (`lb` for the first) to the end of the separator / abort token after
+it (`len` at the end of the text), inclusive. -/
+theorem C11_errors_located {R : RunEnv} {m : Metrics} {len : Nat} (ok : ScanOK R.E m len) (hp : PassOK R.E)
+    {f : Option Nat} {a : G} {sep : Nat} {abort : List Nat} (H : ItemHyp R.text f a sep abort)
+    (hloc : locG (sep :: abort) a = true)
+    {K : List (RawTok Tok)} (hF : SpecFuelOK R.text f a K)
+    (n v id lo : Nat) (hi : Option Nat) {j : Nat} {lx : Lx} (ctx : Ctx) (W : World)
+    (hhi : effHi v hi ≠ some 0) (hlo : hiBelow (effHi v hi) (effLo v lo) = false)
+    (hat : AtIdx R.E m len f K j lx) (hrec : lx.recover = none) {lb : Nat} (hpos : PosB lb len lx)
+    (hW : specOf W id = none ∨ specOf W id = some (patOf sep abort)) (hsink : ctx.sink = true)
+    (hne : (run R (n + 1) (.list v id lo hi a sep abort) lx ctx W).1 ≠ .fuel)
+    (hF21 : (listSpec R.text f (effHi v hi) a sep abort (K.drop j)).lastBadAtEnd = false) :
+    ∃ lx' W' errs,
+      run R (n + 1) (.list v id lo hi a sep abort) lx ctx W =
+        (.ok (.list ((listSpec R.text f (effHi v hi) a sep abort (K.drop j)).entries.map (render v))) lx', W') ∧
+      AtIdx R.E m len f K (j + (listSpec R.text f (effHi v hi) a sep abort (K.drop j)).consumed) lx' ∧
+      lx'.recover = none ∧
+      errs.length = (listSpec R.text f (effHi v hi) a sep abort (K.drop j)).nbad ∧
+      W'.log = W.log ++ errs ++
+        (if (listSpec R.text f (effHi v hi) a sep abort (K.drop j)).entries.length < effLo v lo then
+          [ctx.apply (mkErr (.count lx'.parseSpan
+            (listSpec R.text f (effHi v hi) a sep abort (K.drop j)).entries.length (effLo v lo) (effHi v hi)))]
+         else []) ∧
+      ∀ (k : Nat) (b : Nat × Nat),
+        (badBounds (listSpec R.text f (effHi v hi) a sep abort (K.drop j)).entries sep abort lb len (K.drop j))[k]? =
+          some b → ∃ e, errs[k]? = some e ∧ ErrWithin b.1 b.2 e := by
+  obtain ⟨lx', W', errs, h1, h2, h3, h4, h5⟩ :=
+    (C11_sinkConcl_def R m len f K a sep abort n v id lo hi j lx ctx W).mp
+      (list_sink ok hp H hF n v id lo hi ctx W hhi hlo hat hrec hW hsink hne hF21)
+  obtain ⟨errs2, tl, g1, g2, g3, g4⟩ :=
+    list_located ok hp H hloc hF n v id lo hi ctx W hhi hlo hat hrec hpos hW hsink hne
+  rw [h1] at g1
+  simp only at g1
+  rw [h5, List.append_assoc, List.append_assoc] at g1
+  have hx := List.append_cancel_left g1
+  have he : errs = errs2 := (List.append_inj hx (by rw [h4, g3])).1
+  subst he
+  exact ⟨lx', W', errs, h1, h2, h3, h4, h5, g4⟩
+
+/-- The location clause as one would first state it, with the SEMANTIC locality hypothesis
+`ItemHyp` only (kept as a def; REFUTED by `C11_located_needs_syntactic`): in a round whose segment
+is followed by a boundary token `b`, an error appended to the log lies in `[lb, b.stop.byte]`. -/
+def C11_located_semantic_statement : Prop :=
+  ∀ (R : RunEnv) (m : Metrics) (len : Nat), ScanOK R.E m len → PassOK R.E →
+  ∀ (f : Option Nat) (a : G) (sep : Nat) (abort : List Nat), ItemHyp R.text f a sep abort →
+  ∀ (K : List (RawTok Tok)), SpecFuelOK R.text f a K →
+  ∀ (j : Nat) (lx : Lx), AtIdx R.E m len f K j lx → lx.recover = none →
+  ∀ (lb : Nat), PosB lb len lx →
+  ∀ (v n id : Nat) (ctx : Ctx) (W : World),
+    (specOf W id = none ∨ specOf W id = some (patOf sep abort)) → ctx.sink = true →
+  ∀ (b : RawTok Tok) (rest : List (RawTok Tok)), tailOf sep abort (K.drop j) = b :: rest →
+  ∀ (e : PErr), (valueRound R n v id a sep abort lx ctx W).2.log = W.log ++ [e] → ErrWithin lb b.stop.byte e
+
+/-- **The semantic locality hypothesis does not locate the error.**  Item `both(one(','), F)` with
+`F = pred(x ∧ ¬x)` (always failing): it satisfies `ItemHyp` (`Outside.item`: it never succeeds; it
+fails on every isolated segment) but is not in `locG` — `one(',')` accepts the separator.  Text
+`,b;`, `list_bounded_default`, sink: the first segment is empty, hence bad, and is bounded by bytes
+`0..1` (list start to the end of the `,`); the round reports exactly one error, `F`'s
+`UnexpectedToken` on `b`, whose token span is bytes `1..2`. -/
+theorem C11_located_needs_syntactic : ¬ C11_located_semantic_statement := by
+  intro h
+  have := h Outside.R m0 3 (tabM_ok _ _ _ (Nat.le_refl _)) (tabM_pass _) none Outside.a 4 [5] (Outside.item _ _)
+    Outside.K (Outside.fuelOK _) 0 Outside.lx (atIdx_new _ _ _ Outside.kept_eq) rfl 0 Outside.posB 3 8 1 sinkCtx
+    World.init (Or.inl rfl) rfl _ _ Outside.e1_outside.1 Outside.e1 (by rw [Outside.round_log]; rfl)
+  exact Outside.e1_outside.2.2 this
+
+/-- the counterexample item is outside the syntactic fragment, as it must be -/
+example : locG [4, 5] Outside.a = false := rfl
+
 /-! ### non-vacuity -/
 
 /-- The hypotheses are satisfiable and the theorem applies: text `a,b;`, item `one(a)`,
@@ -418,5 +602,32 @@ example : locG [4, 5] (.right (.one 0) (.repeat_ 0 0 none (.any [1, 2]))) = true
 /-- and fail for the counterexample items -/
 example : locG [4, 5] EndOfText.a = false ∧ locG [4, 5] Lookahead.a = false ∧ locG [4, 5] Rejected.a = false :=
   ⟨rfl, rfl, rfl⟩
+
+/-- Non-vacuity of the location clause: text `a,b;`, item `one(a)`, `list_bounded_default(0, None, …)`
+with a sink, fresh lexer (`lb = 0`).  The second segment `b` is the only bad one; the oracle's
+bounds for it are bytes `1..4` (start of the `,` to the end of the `;`), and the single logged
+error lies within them. -/
+example : badBounds (listSpec Good.R.text none none Good.a 4 [5] Good.K).entries 4 [5] 0 4 Good.K = [(1, 4)] ∧
+    ∃ lx' W' e, run Good.R 10 Good.g Good.lx sinkCtx World.init =
+        (.ok (.list ((listSpec Good.R.text none none Good.a 4 [5] Good.K).entries.map (render 3))) lx', W') ∧
+      W'.log = [e] ∧ ErrWithin 1 4 e := by
+  refine ⟨by rfl, ?_⟩
+  obtain ⟨lx', W', errs, h1, _, _, h4, h5, h6⟩ :=
+    C11_errors_located (tabM_ok _ _ _ (Nat.le_refl _)) (tabM_pass _) Good.item (by rfl) (Good.fuelOK Good.K) 9 3 1 0 none
+      sinkCtx World.init (by decide) rfl (atIdx_new _ _ _ Good.kept_eq) rfl (C11_posB_new 0 m0 4) (Or.inl rfl) rfl
+      Good.run_ne_fuel Good.spec_eq.2.2.2
+  have hb : (badBounds (listSpec Good.R.text none (effHi 3 none) Good.a 4 [5] (Good.K.drop 0)).entries 4 [5] 0 4
+      (Good.K.drop 0))[0]? = some (1, 4) := by rfl
+  obtain ⟨e, he, hin⟩ := h6 0 (1, 4) hb
+  have hlen : errs.length = 1 := by rw [h4]; exact Good.spec_eq.1
+  have herrs : errs = [e] := by
+    match errs, hlen, he with
+    | [x], _, he => simp at he; rw [he]
+  refine ⟨lx', W', e, h1, ?_, hin⟩
+  rw [h5, herrs]
+  have : ¬ ((listSpec Good.R.text none (effHi 3 none) Good.a 4 [5] (Good.K.drop 0)).entries.length < effLo 3 0) := by
+    simp [effLo]
+  rw [if_neg this]
+  rfl
 
 end Tephra.Props
